@@ -57,6 +57,20 @@ def wf_errors(gfa):
     errs = []
     reg = registered(gfa)
     regids = {id(x) for x in reg}
+    if len(regids) != len(reg):
+        dup = [x for x in reg if sum(1 for y in reg if y is x) > 1]
+        errs.append(("listed-twice", "line %s is listed more than once by the Gfa" % ident(dup[0])))
+    for rt, coll in gfa._records.items():
+        if rt in ("H", "F") or not isinstance(coll, dict):
+            continue
+        for key, x in coll.items():
+            if isinstance(key, str):
+                try:
+                    nm = x.name
+                except Exception:
+                    nm = None
+                if nm != key:
+                    errs.append(("stale-identifier", "line %s is still found under the identifier %r" % (ident(x), key)))
     for x in reg:
         if x._gfa is not gfa:
             errs.append(("owner", "line %s listed by the Gfa reports another owner" % ident(x)))
@@ -184,9 +198,22 @@ def canon_snapshot(gfa):
     from bounded import oracle
     v = gfa.version
     per = []
+    def oriented(e):
+        """a back-reference entry with its orientation, the orientation being taken relative to the canonical spelling of a link"""
+        if isinstance(e, gfapy.OrientedLine) and isinstance(e.line, gfapy.Line):
+            o = e.orient
+            t = ident(e.line)
+            if v == "gfa1" and e.line.record_type == "L":
+                f = t.split("\t")
+                if oracle.link_canon(f[1:6]) != f[1:6]:
+                    o = oracle.inv(o)
+            return canon_ident(t, v) + o
+        if isinstance(e, gfapy.Line):
+            return canon_ident(ident(e), v)
+        return None
     for x in registered(gfa):
         cid = canon_ident(ident(x), v)
         per.append((cid, x.virtual, tuple(sorted(canon_ident(ident(y), v) for y in field_refs(x))),
-                    tuple(sorted((k, tuple(sorted(canon_ident(ident(y), v) for y in _lines_in(lst)))) for k, lst in (x._refs or {}).items() if lst))))
+                    tuple(sorted((k, tuple(sorted(filter(None, (oriented(e) for e in lst))))) for k, lst in (x._refs or {}).items() if lst))))
     _, content = oracle.view(str(gfa), v)
     return dict(version=v, names=tuple(sorted(map(str, gfa.names))), content=tuple(sorted(map(str, content.elements()))), lines=tuple(sorted(per)))
